@@ -1,14 +1,17 @@
 SPECIFICATION Spec
 CONSTANTS MaxPre = 2 MaxN = 5
-  PreAlphabet <- AlphaQuick
+  PreAlphabet <- AlphaThorough
   Accs <- AccsQuick
   Posts <- PostsQuick
-  Pairs = {TRUE, FALSE}
+  FlowKinds = {"bare", "pairs", "ctx"}
   Drivers = {"fill"}
+  Places = {"alone"}
+  CopyMode = "per_branch"
   Bufs <- BufOne
 INVARIANT DriversAgree
 INVARIANT FillReaches
 INVARIANT StopSound
 INVARIANT ComputeOnce
+INVARIANT BufBound
 INVARIANT Emitted
 CHECK_DEADLOCK FALSE
